@@ -104,6 +104,9 @@ def gen_c12_case(rng: random.Random):
         if mode == "nearly_normalised":
             # shares written with seven decimals: they add up to 1 only to within 1e-6; keys exactly the affected set, in order
             w = {k: float(f"{v:.7f}") for k, v in w.items() if v >= 1e-6} if all(v >= 1e-6 for v in w.values()) else w
+            if abs(sum(w.values()) - 1.0) < 1e-9 and len(w) >= 2:
+                k0 = next(iter(w))
+                w[k0] = w[k0] + 4e-7          # (published shares rarely add up to 1 exactly: within 1e-6 they are accepted as shares)
             return dict(w), mode
         items = list(w.items())
         rng.shuffle(items)
@@ -211,6 +214,26 @@ def _c12_model():
         return None
 
 
+def fixed_c12_cases():
+    """combinations that a few hundred random cases reach once or never"""
+    out = []
+    # one affected industry, weights that do not cover it (must be refused like any missing weight)
+    out.append({"kind": "industries", "impact": 100.0, "event_type": "recovery", "bad": "missing", "emf": 10**6, "aff": [("rB", "manu")],
+                "weights": [[["rA", "agri"], 1.0], [["rA", "build"], 2.0]], "wmode": "exact"})
+    out.append({"kind": "industries", "impact": 100.0, "event_type": "rebuild", "bad": "missing", "emf": 1, "aff": [("rC", "serv")],
+                "weights": [[["rC", "agri"], 1.0]], "wmode": "exact"})
+    # a region / a sector listed twice, two distinct values on each level
+    out.append({"kind": "regions_sectors", "impact": 1200.0, "event_type": "recovery", "bad": None, "emf": 10**6,
+                "regs": ["rA", "rB", "rA"], "secs": ["agri", "manu"], "wr": None, "ws": [["agri", 1.0], ["manu", 3.0]], "wmode": "equal/exact"})
+    out.append({"kind": "regions_sectors", "impact": 1200.0, "event_type": "rebuild", "bad": None, "emf": 10**3,
+                "regs": ["rA", "rC"], "secs": ["serv", "build", "serv"], "wr": [["rA", 2.0], ["rC", 1.0]], "ws": None, "wmode": "exact/equal"})
+    # shares published with seven decimals, indexed exactly by the affected industries in their order
+    out.append({"kind": "industries", "impact": 12345.678, "event_type": "recovery", "bad": None, "emf": 10**6,
+                "aff": [("rA", "agri"), ("rB", "build"), ("rC", "manu")],
+                "weights": [[["rA", "agri"], 0.1428571], [["rB", "build"], 0.2857143], [["rC", "manu"], 0.5714289]], "wmode": "nearly_normalised"})
+    return out
+
+
 def run_c12_impl(case):
     kw = dict(occurrence=1, duration=1, event_monetary_factor=case.get("emf", 10**6))
     if case["event_type"] == "rebuild":
@@ -294,9 +317,10 @@ def explore_c12(tier, seed):
     dr = Driver()
     seen = set()
     try:
-        for i in range(n):
+        fixed = fixed_c12_cases()
+        for i in range(n + len(fixed)):
             rng = random.Random(seed * 7919 + i)
-            case = gen_c12_case(rng)
+            case = gen_c12_case(rng) if i < n else fixed[i - n]
             res["scenarios"] += 1
             res["steps"] += 1
             bump(res, f"{case['kind']}/{case.get('wmode', '-')}/{case['bad'] or 'valid'}")
